@@ -216,7 +216,7 @@ def after_peer(F, R):
 
 def nothing_after(F, R):
     b = F.one(r'^v5::shared::MqttShared::close$')
-    closes = {bi for bi, t in b.calls_to(r'^ntex_io::.*IoRef>::close$')}
+    closes = must_call_blocks(F, b, r'^ntex_io::.*IoRef>::close$')
     for bi, t in b.calls_to(IO_ENCODE):
         ok = bool(closes) and not (set(b.returns()) & b.reachable_after(bi, avoid=closes))
         R.ob('C15.nothing-after', 'v5::shared::MqttShared::close|encode=>io.close', ok, 'after writing DISCONNECT close() can return without closing the io', b.loc(bi))
@@ -242,6 +242,11 @@ def nothing_after(F, R):
             continue
         clears = [bi for bi, t in x.calls_to(r'^v5::shared::MqttShared::clear_queues$')]
         ends = {bi for bi, t in x.calls_to(r'^ntex_io::.*IoRef>::(close|terminate)$')}
+        if not clears and not ends and x.path.split('::')[-1] in ('close', 'force_close', 'drop_sink'):
+            # the teardown entry point delegates both steps to a sibling that is checked itself
+            if must_call_blocks(F, x, r'^v5::shared::MqttShared::clear_queues$') and must_call_blocks(F, x, r'^ntex_io::.*IoRef>::(close|terminate)$'):
+                n += 1
+            continue
         if not clears or not ends:
             continue
         for bi in clears:
@@ -249,7 +254,7 @@ def nothing_after(F, R):
             late = sorted(e for e in ends if e in x.reachable_after(bi))
             R.ob('C15.nothing-after', '%s|io-closed-before-the-queues-are-cleared' % x.path, not late,
                  'clear_queues() runs the application\'s publish-ack callbacks (disconnected = true) while the io is still open and closes it afterwards: what such a callback sends through the sink is written after the endpoint\'s own DISCONNECT', x.loc(bi))
-    R.floor('C15.nothing-after', 'teardown functions that clear the queues and close the io', n, 3)
+    R.floor('C15.nothing-after', 'teardown functions that clear the queues and close the io', n, 2)
     R.assume('ntex-io refuses writes once shutdown has started (IoRef::encode on a closing io writes nothing): extern effect, confirmed by experiment in round 0')
 
 
